@@ -150,6 +150,9 @@ func r08_2(c *Ctx, rule string) {
 			if fnPkgShort(c, fn) != "fsutil" || fn.Synthetic != "" {
 				continue // promoted-method wrappers of the embedded Stream are not loops of their own
 			}
+			if c.P.Transparent(fn) {
+				continue // a helper's sites are counted in each function that calls it
+			}
 			n := len(c.P.CallsTo(fn, "(fsutil.Stream).RecvMsg"))
 			if n > 0 {
 				holders[fn] += n
@@ -327,22 +330,32 @@ func r08_4(c *Ctx, rule string) {
 						ok = true
 					}
 				}
-				if !ok && fn.Parent() != nil {
-					par := fn.Parent()
-					eng.Instrs(par, func(in ssa.Instruction) {
-						if !c.P.IsCallTo(in, "(*sync.Once).Do") {
-							return
-						}
-						call := in.(ssa.CallInstruction)
-						if mc, isMC := call.Common().Args[len(call.Common().Args)-1].(*ssa.MakeClosure); isMC && mc.Fn == ssa.Value(fn) {
+				if !ok {
+					// the close sits in a literal or method handed to
+					// sync.Once.Do: the store must dominate every such Do
+					nDo, good := 0, 0
+					for _, par := range c.P.ModFuncs {
+						par := par
+						for _, in := range c.P.CallsTo(par, "(*sync.Once).Do") {
+							a := in.Common().Args
+							mc, isMC := a[len(a)-1].(*ssa.MakeClosure)
+							if !isMC {
+								continue
+							}
+							if mc.Fn != ssa.Value(fn) && c.P.DescribeFuncValue(mc) != c.name(fn) {
+								continue
+							}
+							nDo++
 							for _, s := range fieldStoresIn(par, fOwner) {
 								if eng.Dominates(s, in) {
-									ok = true
+									good++
 									storers[par] = true
+									break
 								}
 							}
 						}
-					})
+					}
+					ok = nDo > 0 && good == nDo
 				}
 				c.R.Check(ok, rule, con, c.pos(cl), "the result is stored on every path before the channel is closed",
 					"close("+e.typ+"."+e.ch+") is not dominated by the store of "+e.typ+"."+e.field+": a waiter can read a stale result")
@@ -360,25 +373,34 @@ func r08_4(c *Ctx, rule string) {
 				in := ld.(ssa.Instruction)
 				con := fmt.Sprintf("%s.%s/read#%d in %s", e.typ, e.field, reads, c.name(fn))
 				c.R.Analysed(c.name(fn))
-				ok := false
-				eng.Instrs(fn, func(x ssa.Instruction) {
-					sel, isSel := x.(*ssa.Select)
-					if !isSel {
-						return
-					}
-					for k, st := range sel.States {
-						if st.Dir == types.RecvOnly && c.P.ChanDesc(st.Chan) == "field:"+chOwner {
-							if arm := eng.SelectArm(sel, k); arm != nil && (arm == in.Block() || arm.Dominates(in.Block())) {
-								ok = true
+				// (a read inside a helper is judged at each call of the helper in fn)
+				lifted := eng.LiftTo(fn, in)
+				ok := len(lifted) > 0
+				for _, li := range lifted {
+					li := li
+					okHere := false
+					eng.InstrsShallow(fn, func(x ssa.Instruction) {
+						sel, isSel := x.(*ssa.Select)
+						if !isSel {
+							return
+						}
+						for k, st := range sel.States {
+							if st.Dir == types.RecvOnly && c.P.ChanDesc(st.Chan) == "field:"+chOwner {
+								if arm := eng.SelectArm(sel, k); arm != nil && (arm == li.Block() || arm.Dominates(li.Block())) {
+									okHere = true
+								}
 							}
 						}
+					})
+					eng.Instrs(fn, func(x ssa.Instruction) {
+						if u, isU := x.(*ssa.UnOp); isU && u.Op == token.ARROW && c.P.ChanDesc(u.X) == "field:"+chOwner && eng.Dominates(u, li) {
+							okHere = true
+						}
+					})
+					if !okHere {
+						ok = false
 					}
-				})
-				eng.Instrs(fn, func(x ssa.Instruction) {
-					if u, isU := x.(*ssa.UnOp); isU && u.Op == token.ARROW && c.P.ChanDesc(u.X) == "field:"+chOwner && eng.Dominates(u, in) {
-						ok = true
-					}
-				})
+				}
 				c.R.Check(ok, rule, con, c.pos(in), "read only in the arm that received from the announcing channel",
 					e.typ+"."+e.field+" is read without first receiving from "+e.typ+"."+e.ch)
 			}
@@ -438,6 +460,12 @@ func r08_5(c *Ctx, rule string) {
 			mutated++
 			ent, ok := sharedFieldTable[name]
 			if !ok {
+				// a synchronisation primitive is safe for concurrent use whatever it is called
+				switch types.TypeString(f.Type(), nil) {
+				case "sync.Mutex", "sync.RWMutex", "sync.Once", "sync.WaitGroup":
+					c.R.OK(rule, name, "-", "a "+types.TypeString(f.Type(), nil)+": safe for concurrent use")
+					continue
+				}
 				where := "-"
 				if len(muts) > 0 {
 					where = c.pos(muts[0])
@@ -456,7 +484,9 @@ func r08_5(c *Ctx, rule string) {
 				fns := map[string]bool{}
 				for _, fa := range cen.FieldAddrs(f) {
 					if !accIsFresh(fa) {
-						fns[c.name(fa.Parent())] = true
+						for _, top := range c.tops(fa) {
+							fns[c.name(top)] = true
+						}
 					}
 				}
 				okc := true
